@@ -46,6 +46,11 @@ def outcome(kind, big):
         return True, ValueError("bad value " + pad, 7)
     if kind == 3:
         return True, KeyError("k" + pad)
+    if kind == 5:
+        return True, TimeoutError()                    # an exception raised without arguments
+    if kind == 6:
+        from engine.valuekinds import AppError
+        return True, AppError()                        # a client-defined exception without arguments
     return True, RetryError("pynenc error " + pad)
 
 BASE_NAMES = ["set_invocation_result", "set_invocation_exception", "set_invocation_status"]
@@ -257,10 +262,10 @@ def order___KIND_____O__(big: int, min_size: int, k: int) -> bool:
 D = r'''
 def displaced___KIND__(wk: int, sk: int, big: int, min_size: int, first: int, k: int) -> bool:
     """
-    pre: 0 <= wk <= 4 and 0 <= sk <= 4 and 0 <= big <= 1 and 0 <= min_size <= 1 and 0 <= first <= 1 and 0 <= k <= KMAX
+    pre: 0 <= wk <= 6 and 0 <= sk <= 6 and 0 <= big <= 1 and 0 <= min_size <= 1 and 0 <= first <= 1 and 0 <= k <= KMAX
     post: _
     """
-    wk = pick(wk, 0, 4); sk = pick(sk, 0, 4); big = pick(big, 0, 1); min_size = [0, 1024][pick(min_size, 0, 1)]
+    wk = pick(wk, 0, 6); sk = pick(sk, 0, 6); big = pick(big, 0, 1); min_size = [0, 1024][pick(min_size, 0, 1)]
     with NoTracing():
         return displaced(["mem", "sqlite"][__KIND__], wk, sk, big, min_size, first, k)
 '''
@@ -297,7 +302,7 @@ def run(ctx: Ctx) -> None:
     src = SRC + "\ninstall(False)\n"
     conds = []
     for kind in (0, 1):
-        for o in range(5):
+        for o in range(7):
             src += F.replace("__KIND__", str(kind)).replace("__O__", str(o)).replace("KMAX", str(kmax))
             conds.append(Cond(f"order_{kind}_{o}", "confirm", 900))
     for kind in (0, 1):
@@ -312,9 +317,9 @@ def run(ctx: Ctx) -> None:
                               "Mem/SQLite _atomic_status_transition twins", "BaseStateBackend.set_result/get_result/set_exception/get_exception/serialize_exception/deserialize_exception",
                               "BaseClientDataStore.serialize/resolve/_maybe_store", "DistributedInvocation.status/get_final_result"]
     ctx.bounds = {"reader": f"one observation (status, then result/exception, fresh caches) at every preemption point 0..{kmax} of the worker, plus after completion",
-                  "outcomes": "dict value, list value, ValueError(2 args), KeyError, PynencError subclass; small and padded; min_size_to_cache in {0, 30, 1024} (inline and externalised)",
+                  "outcomes": "dict value, list value, ValueError(2 args), KeyError, PynencError subclass, TimeoutError() and a client exception without arguments; small and padded; min_size_to_cache in {0, 30, 1024} (inline and externalised)",
                   "guard": "every status x {nothing, result, exception stored} x both backends",
-                  "displaced worker": f"winner and stale outcome kinds 5 x 5, small/padded, inline/externalised, both backends, first actor, one preemption 0..{kmax}"}
+                  "displaced worker": f"winner and stale outcome kinds 7 x 7, small/padded, inline/externalised, both backends, first actor, one preemption 0..{kmax}"}
     ctx.stubs += ["cached_status_time=0 (no status cache)", "reader clears the client-data-store LRU (a different process)", "CoopLock, sqlite timeout=0, sync history threads, counter clock"]
     ctx.assumptions += ["result/exception VALUES are drawn from a small concrete family (serializers are C code and are realised at the boundary): sampling, not part of the discharged claim",
                         "JsonSerializer only (the harness default); pickle/jsonpickle round trips are not covered"]
